@@ -91,3 +91,36 @@ func vfCorrupt(tok string, part, pos int) string {
 	parts[part] = string(b)
 	return strings.Join(parts, ".")
 }
+
+// vfJWKEmbed re-signs the token with a foreign key of the same algorithm; the header names the GENUINE key by its
+// (public) fingerprint as kid and, if embed is set, carries the forger's own public key as embedded jwk.
+func vfJWKEmbed(tok string, embed bool) string {
+	pl := vfJWTPayload(tok)
+	if pl == nil {
+		return ""
+	}
+	k := vfKey("ca_rsa_alt")
+	alg, err := publicToPreferedJoseSigAlgo(k.pub())
+	if err != nil {
+		return ""
+	}
+	jwk := jose.JSONWebKey{Key: k.Priv, KeyID: vfKey("ca_rsa").sshFP(), Algorithm: string(alg)}
+	opts := (&jose.SignerOptions{EmbedJWK: embed}).WithType("JWT")
+	if embed {
+		opts = opts.WithHeader(jose.HeaderKey("kid"), vfKey("ca_rsa").sshFP())
+	}
+	signer, err := jose.NewSigner(jose.SigningKey{Algorithm: alg, Key: jwk}, opts)
+	if err != nil {
+		return ""
+	}
+	b, _ := json.Marshal(pl)
+	obj, err := signer.Sign(b)
+	if err != nil {
+		return ""
+	}
+	s, err := obj.CompactSerialize()
+	if err != nil {
+		return ""
+	}
+	return s
+}
